@@ -545,6 +545,7 @@ def main():
     except Untranslatable as e:
         out.append("def most_general_cardinality_untranslatable : Unit := ()\n"); report['most_general_cardinality'] = 'UNTRANSLATABLE: ' + str(e)[:200]
     extra_funcs(out, report, absh, allc)
+    macro_mapping(out, report, shacl, allc)
 
     out.append("end Gen\nend Shexer\n")
     text = apply_fallbacks("\n".join(out))
@@ -562,6 +563,45 @@ def main():
     for k, v in sorted(report.items()):
         if v.startswith('UNTRANSLATABLE'):
             print("UNTRANSLATABLE", k, v)
+
+
+def macro_mapping(out, report, shacl, allc):
+    """_MACRO_MAPPING of the SHACL serializer: element type -> sh:nodeKind value (or nothing)"""
+    name = 'MACRO_MAPPING'
+    try:
+        env = {}
+        ns = None
+        for node in shacl.body:
+            if isinstance(node, ast.Assign) and len(node.targets) == 1 and isinstance(node.targets[0], ast.Name):
+                tgt, v = node.targets[0].id, node.value
+                if tgt == '_SHACL_NAMESPACE':
+                    ns = const_value(v, allc)
+                    env[tgt] = ns
+                elif isinstance(v, ast.Call) and isinstance(v.func, ast.Name) and v.func.id == 'URIRef' and len(v.args) == 1:
+                    try:
+                        env[tgt] = const_value(v.args[0], dict(allc, **{k: x for k, x in env.items() if isinstance(x, str)}))
+                    except Untranslatable:
+                        pass
+                elif isinstance(v, ast.Constant) and v.value is None:
+                    env[tgt] = None
+                elif tgt == '_MACRO_MAPPING':
+                    if not isinstance(v, ast.Dict):
+                        raise Untranslatable("not a dict literal")
+                    items = []
+                    for k, val in zip(v.keys, v.values):
+                        kk = const_value(k, allc)
+                        if not isinstance(val, ast.Name) or val.id not in env:
+                            raise Untranslatable("value " + ast.dump(val))
+                        items.append((kk, env[val.id]))
+                    out.append("def MACRO_MAPPING : List (String × Option String) := [%s]\n" % ", ".join(
+                        "(%s, %s)" % (lstr(k), "none" if x is None else "some " + lstr(x)) for k, x in items))
+                    out.append("def SHACL_NAMESPACE : String := %s\n" % lstr(ns or "<missing>"))
+                    report[name] = 'translated'
+                    return
+        raise Untranslatable("_MACRO_MAPPING not found")
+    except (Untranslatable, KeyError, AttributeError) as e:
+        out.append("def MACRO_MAPPING_untranslatable : Unit := ()  -- %s\ndef MACRO_MAPPING : List (String × Option String) := Fallback.MACRO_MAPPING\ndef SHACL_NAMESPACE : String := \"http://www.w3.org/ns/shacl#\"\n" % str(e)[:100])
+        report[name] = 'UNTRANSLATABLE: ' + str(e)[:200]
 
 
 def extra_funcs(out, report, absh, allc):
